@@ -224,7 +224,7 @@ LEVEL_TEXT = {
     },
     "C11": {
         "text": "Unbounded proof (Verus) on the real text of eval.rs EvalString::{evaluate_inner, evaluate} and the Env impl of Vars: the expanded string equals the spec function ev::eval taken from the statement -- literals are copied, a reference is replaced by the expansion of the value found in the first env binding the name, that value being expanded against the envs AFTER that one only, and by nothing if no env binds it -- for all part lists and all lists of arbitrary environments; the mutual recursion terminates (decreases on the env list).",
-        "note": "Expansion function (unit eval) + add_build's scoping order, path env lists and $in/$out (unit load).  KNOWN-FINDING D9 printed on the unchanged tree (include does not extend the including scope).  Eager top-level expansion is an in-body assertion in Parser::read (unit scan).",
+        "note": "Expansion function (unit eval) + add_build's scoping order, path env lists and $in/$out (unit load).  KNOWN-FINDING D9 printed on the unchanged tree (include does not extend the including scope).  Eager top-level expansion and 'every top-level definition (re)binds its name' are an in-body assertion and a loop invariant over a ghost list of definitions in Parser::read; Parser::inherit (child scopes start from every binding of the parent) is proved (unit scan).",
         "design_ref": "DESIGN.md §6 C11",
     },
     "C17": {
@@ -234,7 +234,7 @@ LEVEL_TEXT = {
     },
     "C20": {
         "text": "Unbounded proof (Verus) on the real text of progress_fancy.rs task_message, truncate and progress_bar, over a trusted byte-level model of str/String: for every message, elapsed time and width >= 10, task_message terminates without panicking (every truncate/slice is at a character boundary, no subtraction underflows) and returns at most max_cols bytes, and a short message without time note is returned unchanged; truncate returns the longest prefix of at most max bytes ending on a character boundary (loop terminates because offset 0 is a boundary); progress_bar returns exactly bar_size bytes for every count vector whose total * (bar_size+1) fits in usize (nonlinear lemma: sum <= total => sum*b/total <= b, == b when sum == total).",
-        "note": "Genuine defect D5 (non-boundary truncate panic poisoning the progress mutex; underflow) found by the truncate precondition and fixed in /repo (dc1a548). The str/String wrappers are trusted; print_progress and the thread are not under contract.",
+        "note": "Genuine defect D5 (non-boundary truncate panic poisoning the progress mutex; underflow) found by the truncate precondition and fixed in /repo (dc1a548). The str/String wrappers are trusted; FancyState::print_progress and task::find_last_line are under contract (never panic); the mutex, the debounce thread and the other FancyState methods are not.",
         "design_ref": "DESIGN.md §6 C20",
     },
     "C02": {
@@ -249,7 +249,7 @@ LEVEL_TEXT = {
     },
     "C09": {
         "text": "Unbounded proof (Verus) on the real text of Work::record_finished: the step's discovered list after a successful command is disc_list(ids, dirtying_ins) -- a spec function of the reported names (canonicalised, mapped to file ids in report order, first occurrence kept, declared dirtying inputs dropped) in which the previous list does not occur (replaced wholesale); every other build and every existing file is unchanged (disc_replaced), so build order (ordering_ins) cannot change; discovered deps are part of the signature (build_manifest) and of the covered set of check_build_files_missing, where a missing discovered dep yields Ok(Some(f)) => dirty, and Err is proved to arise only for declared non-generated inputs or generated files without ordering.",
-        "note": "extract_showincludes (output filtering) proved in unit task; read_depfile/run_task not under contract. Genuine defect D12 (adopt mode dropped discovered deps) found while writing this contract and fixed in /repo (3670725).",
+        "note": "extract_showincludes and run_task (depfile only after Success, report = what read_depfile returned, /showIncludes filtered whatever the outcome) proved in unit task; read_depfile is a stub (iterator adapters). Genuine defect D12 (adopt mode dropped discovered deps) found while writing this contract and fixed in /repo (3670725).",
         "design_ref": "DESIGN.md §6 C09",
     },
     "C12": {
@@ -264,7 +264,7 @@ LEVEL_TEXT = {
     },
     "C10": {
         "text": "Unbounded proof (Verus), structural part only: Parser::read_build's result satisfies explicit_ins + implicit_ins + order_only_ins + validation_ins == ins.len() and explicit_outs <= outs.len() for every input text (the three subtractions cannot underflow), and the parser consumes input monotonically; Build's accessor slices are the consecutive ranges explicit | implicit | order-only | validation (units graph/sched).",
-        "note": "Section classification per token, escape semantics, spacing-independence and Loader::add_build's mapping are not decided yet.",
+        "note": "Section classification per token, escape semantics and spacing-independence are not decided; Loader::add_build's mapping of the parsed counts, path order and attributes onto graph::Build is (unit load).",
         "design_ref": "DESIGN.md §6 C10",
     },
     "C18": {
@@ -274,7 +274,7 @@ LEVEL_TEXT = {
     },
     "C19": {
         "text": "Unbounded proof (Verus): count_inv -- for each of the six displayed states the counter equals the number of non-phony builds currently in that state, and total_pending equals the number of builds in Want..Running -- is established by BuildStates::set's exact effect contract (incl. the isize cast in StateCounts::add proved not to wrap) and preserved by every transition of want_*/ready_dependents/run; hence at every progress.update(&counts) call the counts are exact, each wanted non-phony step is counted once, Running count == number of live commands (runner_inv + cmd_inv), and Done/Failed counts never decrease (no transition leaves Done/Failed).",
-        "note": "Final summary line and tasks_run accounting are not yet under contract. Trusted: as C01.",
+        "note": "Summary line and tasks_run accounting are under contract (units sched, run); what counts as a successful command is the decoding proved in unit proc. Trusted: as C01; the Progress implementations only read the counts.",
         "design_ref": "DESIGN.md §6 C19",
     },
     "C07": {
@@ -289,17 +289,17 @@ LEVEL_TEXT = {
     },
     "C01": {
         "text": "Unbounded proof (Verus) over the real text of BuildStates::{set,want_build,want_file,pop_ready,pop_queued,enqueue,get_pool} and Work::{recheck_ready,ready_dependents,run}: the loop invariant of Work::run (inv1: every build in state Ready/Queued/Running/Done/Failed has all producers of its explicit, implicit and order-only inputs Done; only legal state transitions; queues hold each id once) is preserved by every statement, and the trusted effect boundary Runner::start is called only with `id not started before` and, via the state vector, only for a build whose producers are all Done. Readiness is computed from ordering_ins only (validation and discovered inputs provably play no role). Holds for every graph, state vector, -j/-k, pool set and completion order (wait() returns an arbitrary live build with an arbitrary outcome).",
-        "note": "Trusted: Runner (threads/channel) contracts, get_pool's two assumes, HashSet model, dirty-check stubs' frames, u32 ids. Not decided: that every dependent eventually starts (C06a).",
+        "note": "Trusted: which thread runs what (Runner's live/started sets; its counters and spawned closure are verified in unit task), get_pool's two assumes, HashSet model, dirty-check stubs' frames, u32 ids. 'Completed successfully' is the decoding of the wait status proved in unit proc.",
         "design_ref": "DESIGN.md §6 C01",
     },
     "C04": {
         "text": "Unbounded proof (Verus): Runner::start requires |live| < parallelism at its only call site; BuildStates::set(.., Running) is reachable only through pop_queued, whose verified contract returns the head of the first pool with depth == 0 or running < depth; per-pool running counters are proved exact (pool_inv: running == number of Running builds resolved to that pool, <= depth when depth > 0) across every transition incl. failures; enqueue returns Err iff the build's pool name matches no declared pool.",
-        "note": "Trusted: as C01; plus the abstraction |live| == Runner.running. The parser's depth value (str::parse) is trusted.",
+        "note": "Trusted: as C01; plus the representation axiom |live| == Runner.running, par == parallelism (unit task proves the real counter arithmetic against the same clauses the scheduler assumes). The parser's depth value (str::parse) is trusted.",
         "design_ref": "DESIGN.md §6 C04",
     },
     "C05": {
         "text": "Unbounded proof (Verus): (a) a build becomes Ready only if every ordering producer is Done (Failed is not Done and is absorbing), so nothing downstream of a failure starts; (b) record_finished has precondition termination == Success, discharged at both call sites of Work::run; (c) loop invariant `failures_left == Some(k) => k >= 1`: when the budget is used up run returns at once; Work::run returns Ok(true) only if every wanted build is Done (all_settled) and no command failed.",
-        "note": "Trusted: as C01; exit-status plumbing in run.rs/main.rs and wait-status decoding not verified; liveness clause not decided.",
+        "note": "Trusted: as C01. Wait-status decoding (unit proc), run_task's pass-through and the error-to-Failure mapping of the spawned closure (unit task), build()/run_impl result mapping and parse_args' -k handling (unit run) are verified; main.rs (Err -> 1) is not. Genuine defect D15 (-k 0 underflow) found by parse_args' contract and fixed in /repo (3ebad8d). The liveness half ('still brought up to date') is C06's.",
         "design_ref": "DESIGN.md §6 C05",
     },
     "C06": {
